@@ -48,6 +48,14 @@ C07_CASES = [
     ('array view assigned through a pointer',
      'fn foo(s: []i32)\n{\n\tvar x: i32 = 1;\n\tvar p: &i32 = &x;\n\t&p = s;\n}\n', 'reject',
      'assignment of an array view []i32 to a pointer variable: an ill-typed program is rejected with an error, not by a failed assertion'),
+    ('index into something that is not an array, as an assignment target',
+     'fn f()\n{\n\tvar x: i32 = 1;\n\tx[0] = 2;\n}\n', 'reject:501', 'an element of an i32 variable is assigned: rejected with E501, not by a failed assertion'),
+    ('index into something that is not an array, as a value',
+     'fn f()\n{\n\tvar x: i32 = 1;\n\tvar y: i32 = x[0];\n}\n', 'reject:501', 'an element of an i32 variable is read'),
+    ('member of something that is not a structure, as an assignment target',
+     'fn f()\n{\n\tvar x: i32 = 1;\n\tx.m = 2;\n}\n', 'reject:505', 'a member of an i32 variable is assigned'),
+    ('array view assigned to an element behind a pointer to an array view',
+     'fn foo(a: &[]i32, s: &[]i32)\n{\n\ta[0] = s;\n}\n', 'reject', 'an array view behind a pointer assigned to an element: rejected with an error, not by a panic'),
 ] + [
     (what, 'fn foo(p: &i32)\n{\n}\n\nfn bar(p: &&i32)\n{\n}\n\nfn parr(a: &[]i32)\n{\n}\n\nfn main()\n{\n\tvar x: i32 = 1;\n\tvar p: &i32 = &x;\n\tvar q: &&i32 = &&p;\n'
            '\tvar a: [3]i32 = [1, 2, 3];\n\t%s\n}\n' % stmt, exp, why)
